@@ -33,7 +33,16 @@ func StaticCallee(ci ssa.CallInstruction) *ssa.Function {
 	if c.IsInvoke() {
 		return nil
 	}
-	switch v := c.Value.(type) {
+	val := c.Value
+	for {
+		// `f := (func(string) bool)(pkg.F); f(x)`: a function constant behind a type change
+		if ct, ok := val.(*ssa.ChangeType); ok {
+			val = ct.X
+			continue
+		}
+		break
+	}
+	switch v := val.(type) {
 	case *ssa.Function:
 		return v
 	case *ssa.MakeClosure:
